@@ -8,3 +8,4 @@ B=$(mktemp -d /verif/work/evsave.XXXX); cp -a /verif/evidence/. $B/
 for c in "$@"; do (cd /verif && ./check $c quick 2>&1 | grep -v "^KNOWN-FINDING" | tail -3); done
 git -C /repo checkout -- .
 cp -a $B/. /verif/evidence/; rm -rf $B
+(cd /verif/harness && cargo build 2>&1 | tail -1)
